@@ -192,6 +192,19 @@ fn main() {
         if let Err(e) = bridge::iterator_protocol("KindSet::iter()", || s.iter(), &members(b)).and_then(|()| bridge::double_ended_protocol("KindSet::iter()", || s.iter(), &members(b))).and_then(|()| bridge::iterator_protocol("KindSet::into_iter()", || s.into_iter(), &members(b))) {
             bad(&mut t, e, case.clone());
         }
+        // "ascending kind order": the order of iteration is the order of Kind's own Ord
+        {
+            let it: Vec<Kind> = s.iter().collect();
+            let mut sorted = it.clone();
+            sorted.sort();
+            if it != sorted || Iterator::max(s.iter()) != s.iter().next_back() || Iterator::min(s.iter()) != s.iter().next() || it.windows(2).any(|w| !(w[0] < w[1]) || w[0].cmp(&w[1]) != std::cmp::Ordering::Less || w[0].partial_cmp(&w[1]) != Some(std::cmp::Ordering::Less)) {
+                bad(&mut t, format!("iteration order {it:?} of {b:06b} is not ascending for Kind's Ord (sorted: {sorted:?})"), case.clone());
+            }
+            let tree: std::collections::BTreeSet<Kind> = s.iter().collect();
+            if tree.into_iter().collect::<Vec<_>>() != it {
+                bad(&mut t, format!("a BTreeSet of the members of {b:06b} enumerates in another order than the set"), case.clone());
+            }
+        }
         let fwd: Vec<Kind> = s.iter().collect();
         let exp = members(b);
         if fwd != exp {
